@@ -1,7 +1,430 @@
 package main
 
-func replayCex(prop string, h *HarnessRun, cx *Counterexample) {
-	cx.Replayed = "no-replay"
+// Native replay: a solver assignment is fed to the same harness source,
+// compiled by the real Go tool chain against the current /repo tree
+// (go test -overlay). Calls that the engine redirects to zzStub_* functions
+// are redirected natively by rewriting the package's source files (AST),
+// also supplied through the overlay; /repo itself is never modified.
+
+import (
+	"bytes"
+	"encoding/json"
+	"fmt"
+	"go/ast"
+	"go/format"
+	"go/parser"
+	"go/token"
+	"go/types"
+	"os"
+	"os/exec"
+	"path/filepath"
+	"regexp"
+	"sort"
+	"strings"
+	"sync"
+	"time"
+
+	"golang.org/x/tools/go/packages"
+)
+
+type ReplayDoc struct {
+	Property   string            `json:"property"`
+	Harness    string            `json:"harness"`
+	Package    string            `json:"package"`
+	Extra      []string          `json:"extra_packages,omitempty"`
+	Obligation string            `json:"obligation"`
+	Kind       string            `json:"kind"`
+	Where      string            `json:"where"`
+	Assignment map[string]string `json:"assignment"`
+	Schedule   []string          `json:"schedule,omitempty"`
+	RepoHead   string            `json:"repo_head"`
+	Result     string            `json:"native_result"`
+	Output     string            `json:"native_output,omitempty"`
+	Command    string            `json:"command"`
 }
 
-func cmdReplay(args []string) int { return 2 }
+var replayMu sync.Mutex // one go test at a time per process keeps the build cache sane
+
+func replayCex(prop string, h *HarnessRun, cx *Counterexample) {
+	doc := &ReplayDoc{Property: prop, Harness: cx.Harness, Package: h.Spec.Pkg, Extra: h.Spec.Extra, Obligation: cx.Obligation, Kind: cx.Kind,
+		Where: cx.Where, Assignment: map[string]string{}, Schedule: cx.Sched, RepoHead: repoHead()}
+	for k, v := range cx.Model {
+		doc.Assignment[k] = v
+	}
+	dir := filepath.Join(verifDir, "replays", prop)
+	os.MkdirAll(dir, 0o755)
+	safe := regexp.MustCompile(`[^A-Za-z0-9_.-]+`).ReplaceAllString(cx.Obligation, "_")
+	path := filepath.Join(dir, fmt.Sprintf("%s-%s.json", cx.Harness, safe))
+	cx.ReplayPath = path
+	doc.Command = "cd /verif && ./bin/vcheck replay " + path
+	writeDoc := func() {
+		b, _ := json.MarshalIndent(doc, "", " ")
+		os.WriteFile(path, b, 0o644)
+	}
+	writeDoc()
+	res, out := runNative(doc)
+	doc.Result = res
+	doc.Output = out
+	writeDoc()
+	cx.Replayed = res
+	cx.ReplayOut = out
+}
+
+func repoHead() string {
+	out, err := exec.Command("git", "-C", repoDir, "rev-parse", "--short", "HEAD").Output()
+	if err != nil {
+		return "?"
+	}
+	return strings.TrimSpace(string(out))
+}
+
+func cmdReplay(args []string) int {
+	if len(args) < 1 {
+		fmt.Fprintln(os.Stderr, "usage: vcheck replay <file>")
+		return 2
+	}
+	b, err := os.ReadFile(args[0])
+	if err != nil {
+		fmt.Fprintln(os.Stderr, err)
+		return 2
+	}
+	var doc ReplayDoc
+	if err := json.Unmarshal(b, &doc); err != nil {
+		fmt.Fprintln(os.Stderr, err)
+		return 2
+	}
+	res, out := runNative(&doc)
+	fmt.Println(out)
+	fmt.Printf("replay result: %s\n", res)
+	if res == "confirmed" {
+		fmt.Printf("VIOLATION property=%s replay=%s\n", doc.Property, args[0])
+		return 1
+	}
+	return 0
+}
+
+// runNative builds and runs the harness natively with the assignment.
+func runNative(doc *ReplayDoc) (string, string) {
+	replayMu.Lock()
+	defer replayMu.Unlock()
+	tmp, err := os.MkdirTemp("", "vcheck-replay-")
+	if err != nil {
+		return "no-replay", err.Error()
+	}
+	defer os.RemoveAll(tmp)
+	ovPath, err := nativeOverlay(doc.Package, doc.Extra, tmp)
+	if err != nil {
+		return "no-replay", "overlay: " + err.Error()
+	}
+	assign := filepath.Join(tmp, "assign.json")
+	b, _ := json.Marshal(map[string]interface{}{"assignment": doc.Assignment})
+	os.WriteFile(assign, b, 0o644)
+	cmd := exec.Command("go", "test", "-vet=off", "-count=1", "-overlay", ovPath, "-run", "^TestZZReplay$", "-v", "-timeout", "120s", doc.Package)
+	cmd.Dir = repoDir
+	cmd.Env = append(os.Environ(), "GOFLAGS=-mod=mod", "GOPROXY=off", "GOSUMDB=off", "GOTOOLCHAIN=local",
+		"ZZ_REPLAY="+assign, "ZZ_HARNESS="+doc.Harness)
+	var buf bytes.Buffer
+	cmd.Stdout = &buf
+	cmd.Stderr = &buf
+	done := make(chan error, 1)
+	go func() { done <- cmd.Run() }()
+	select {
+	case <-done:
+	case <-time.After(180 * time.Second):
+		cmd.Process.Kill()
+		return "no-replay", "native replay timed out\n" + buf.String()
+	}
+	out := buf.String()
+	var keep []string
+	for _, l := range strings.Split(out, "\n") {
+		if strings.Contains(l, "ZZ-") || strings.Contains(l, "panic") || strings.Contains(l, "FAIL") || strings.Contains(l, "cannot") || strings.Contains(l, "error") || strings.Contains(l, ".go:") {
+			keep = append(keep, l)
+		}
+	}
+	short := strings.Join(keep, "\n")
+	switch {
+	case strings.Contains(out, "ZZ-FAILED "+doc.Obligation+"\n") || strings.Contains(out, "ZZ-FAILED "+doc.Obligation+" "):
+		return "confirmed", short
+	case doc.Obligation == "no-panic" && strings.Contains(out, "ZZ-PANIC"):
+		return "confirmed", short
+	case doc.Obligation == "no-deadlock" && strings.Contains(out, "ZZ-DEADLOCK"):
+		return "confirmed", short
+	case strings.Contains(out, "ZZ-DONE"):
+		return "not-reproduced", short
+	}
+	return "no-replay", short + "\n" + tail(out, 40)
+}
+
+func tail(s string, n int) string {
+	ls := strings.Split(strings.TrimRight(s, "\n"), "\n")
+	if len(ls) > n {
+		ls = ls[len(ls)-n:]
+	}
+	return strings.Join(ls, "\n")
+}
+
+// nativeOverlay writes overlay.json for `go test -overlay`.
+func nativeOverlay(pkgPath string, extra []string, tmp string) (string, error) {
+	rel := strings.TrimPrefix(strings.TrimPrefix(pkgPath, modPath), "/")
+	all := map[string]bool{pkgPath: true}
+	for _, x := range extra {
+		all[x] = true
+	}
+	ovSrc, err := overlayFor(all, true)
+	if err != nil {
+		return "", err
+	}
+	// harness function names
+	var harnessFns []string
+	pkgName := ""
+	fset := token.NewFileSet()
+	stubsByDir := map[string]map[string]bool{}
+	for p, src := range ovSrc {
+		f, err := parser.ParseFile(fset, p, src, 0)
+		if err != nil {
+			return "", err
+		}
+		dir := filepath.Dir(p)
+		main := dir == filepath.Join(repoDir, rel)
+		if main {
+			pkgName = f.Name.Name
+		}
+		for _, d := range f.Decls {
+			if fd, ok := d.(*ast.FuncDecl); ok && fd.Recv == nil {
+				if main && strings.HasPrefix(fd.Name.Name, "zzH") && fd.Type.Params.NumFields() == 0 {
+					harnessFns = append(harnessFns, fd.Name.Name)
+				}
+				if strings.HasPrefix(fd.Name.Name, "zzStub_") {
+					if stubsByDir[dir] == nil {
+						stubsByDir[dir] = map[string]bool{}
+					}
+					stubsByDir[dir][fd.Name.Name] = true
+				}
+			}
+		}
+	}
+	sort.Strings(harnessFns)
+	var tb strings.Builder
+	fmt.Fprintf(&tb, "package %s\n\nimport (\n\t\"fmt\"\n\t\"os\"\n\t\"runtime/debug\"\n\t\"testing\"\n\t\"time\"\n)\n\n", pkgName)
+	tb.WriteString("var zzHarnessTable = map[string]func(){\n")
+	for _, n := range harnessFns {
+		fmt.Fprintf(&tb, "\t%q: %s,\n", n, n)
+	}
+	tb.WriteString("}\n\n")
+	tb.WriteString(`func TestZZReplay(t *testing.T) {
+	name := os.Getenv("ZZ_HARNESS")
+	fn := zzHarnessTable[name]
+	if fn == nil {
+		t.Fatalf("ZZ-NOHARNESS %s", name)
+	}
+	done := make(chan string, 1)
+	go func() {
+		msg := "ZZ-GOEXIT"
+		defer func() {
+			if r := recover(); r != nil {
+				msg = fmt.Sprintf("ZZ-PANIC %v\n%s", r, debug.Stack())
+			}
+			done <- msg
+		}()
+		fn()
+		msg = "ZZ-RETURNED"
+	}()
+	select {
+	case m := <-done:
+		fmt.Println(m)
+	case <-time.After(30 * time.Second):
+		fmt.Println("ZZ-DEADLOCK harness did not finish in 30s")
+	}
+	zzR.mu.Lock()
+	defer zzR.mu.Unlock()
+	if zzR.assumeKO {
+		fmt.Println("ZZ-ASSUME-FALSE")
+	}
+	for _, m := range zzR.missing {
+		fmt.Println("ZZ-MISSING " + m)
+	}
+	for _, id := range zzR.failed {
+		fmt.Printf("ZZ-FAILED %s \n", id)
+	}
+	fmt.Println("ZZ-DONE")
+}
+`)
+	ov := map[string]string{}
+	write := func(virtual string, content []byte) error {
+		real := filepath.Join(tmp, strings.ReplaceAll(strings.TrimPrefix(virtual, "/"), "/", "__"))
+		if err := os.WriteFile(real, content, 0o644); err != nil {
+			return err
+		}
+		ov[virtual] = real
+		return nil
+	}
+	for p, src := range ovSrc {
+		if err := write(p, src); err != nil {
+			return "", err
+		}
+	}
+	if err := write(filepath.Join(repoDir, rel, "zz_replay_gen_test.go"), []byte(tb.String())); err != nil {
+		return "", err
+	}
+	// redirect calls to stubbed functions inside each package's own files
+	for pp := range all {
+		prel := strings.TrimPrefix(strings.TrimPrefix(pp, modPath), "/")
+		stubs := stubsByDir[filepath.Join(repoDir, prel)]
+		if len(stubs) == 0 {
+			continue
+		}
+		rew, err := rewriteForStubs(pp, ovSrc, stubs)
+		if err != nil {
+			return "", err
+		}
+		for p, src := range rew {
+			if err := write(p, src); err != nil {
+				return "", err
+			}
+		}
+	}
+	b, _ := json.Marshal(map[string]interface{}{"Replace": ov})
+	ovPath := filepath.Join(tmp, "overlay.json")
+	if err := os.WriteFile(ovPath, b, 0o644); err != nil {
+		return "", err
+	}
+	return ovPath, nil
+}
+
+func nativeStubName(fn *types.Func) string {
+	if fn.Pkg() == nil {
+		return ""
+	}
+	sig := fn.Type().(*types.Signature)
+	name := "zzStub_" + fn.Pkg().Name() + "_"
+	if recv := sig.Recv(); recv != nil {
+		t := recv.Type()
+		if p, ok := t.(*types.Pointer); ok {
+			t = p.Elem()
+		}
+		n, ok := t.(*types.Named)
+		if !ok {
+			return ""
+		}
+		if _, isI := n.Underlying().(*types.Interface); isI {
+			return ""
+		}
+		name += n.Obj().Name() + "_"
+	}
+	return name + fn.Name()
+}
+
+// rewriteForStubs returns rewritten copies of the package's non-harness files
+// in which calls to functions that have a zzStub_ replacement call the stub.
+func rewriteForStubs(pkgPath string, ovSrc map[string][]byte, stubs map[string]bool) (map[string][]byte, error) {
+	cfg := &packages.Config{
+		Mode:    packages.NeedName | packages.NeedFiles | packages.NeedSyntax | packages.NeedTypes | packages.NeedTypesInfo | packages.NeedImports | packages.NeedDeps,
+		Dir:     repoDir,
+		Overlay: ovSrc,
+		Env:     append(os.Environ(), "GOFLAGS=-mod=mod", "GOPROXY=off", "GOSUMDB=off", "GOTOOLCHAIN=local", "CGO_ENABLED=0"),
+	}
+	pkgs, err := packages.Load(cfg, pkgPath)
+	if err != nil {
+		return nil, err
+	}
+	if len(pkgs) != 1 {
+		return nil, fmt.Errorf("expected one package for %s", pkgPath)
+	}
+	p := pkgs[0]
+	if len(p.Errors) > 0 {
+		return nil, fmt.Errorf("native type-check: %v", p.Errors[0])
+	}
+	out := map[string][]byte{}
+	for _, file := range p.Syntax {
+		fname := p.Fset.Position(file.Package).Filename
+		if _, isHarness := ovSrc[fname]; isHarness {
+			continue
+		}
+		changed := false
+		var inStub bool
+		ast.Inspect(file, func(n ast.Node) bool {
+			if fd, ok := n.(*ast.FuncDecl); ok {
+				inStub = strings.HasPrefix(fd.Name.Name, "zz")
+			}
+			call, ok := n.(*ast.CallExpr)
+			if !ok || inStub {
+				return true
+			}
+			switch fun := call.Fun.(type) {
+			case *ast.Ident:
+				if fo, ok := p.TypesInfo.Uses[fun].(*types.Func); ok {
+					if sn := nativeStubName(fo); stubs[sn] {
+						fun.Name = sn
+						changed = true
+					}
+				}
+			case *ast.SelectorExpr:
+				fo, ok := p.TypesInfo.Uses[fun.Sel].(*types.Func)
+				if !ok {
+					return true
+				}
+				sn := nativeStubName(fo)
+				if !stubs[sn] {
+					return true
+				}
+				sig := fo.Type().(*types.Signature)
+				if sig.Recv() == nil {
+					call.Fun = ast.NewIdent(sn)
+					changed = true
+					return true
+				}
+				sel := p.TypesInfo.Selections[fun]
+				if sel == nil || sel.Kind() != types.MethodVal {
+					return true
+				}
+				recvExpr := fun.X
+				_, wantPtr := sig.Recv().Type().(*types.Pointer)
+				_, havePtr := p.TypesInfo.TypeOf(fun.X).Underlying().(*types.Pointer)
+				if wantPtr && !havePtr {
+					recvExpr = &ast.UnaryExpr{Op: token.AND, X: fun.X}
+				} else if !wantPtr && havePtr {
+					recvExpr = &ast.StarExpr{X: fun.X}
+				}
+				call.Fun = ast.NewIdent(sn)
+				call.Args = append([]ast.Expr{recvExpr}, call.Args...)
+				changed = true
+			}
+			return true
+		})
+		if !changed {
+			continue
+		}
+		// imports that became unused -> blank
+		used := map[string]bool{}
+		ast.Inspect(file, func(n ast.Node) bool {
+			if se, ok := n.(*ast.SelectorExpr); ok {
+				if id, ok := se.X.(*ast.Ident); ok {
+					used[id.Name] = true
+				}
+			}
+			return true
+		})
+		for _, imp := range file.Imports {
+			name := ""
+			if imp.Name != nil {
+				name = imp.Name.Name
+			} else {
+				path := strings.Trim(imp.Path.Value, `"`)
+				if ip := p.Imports[path]; ip != nil {
+					name = ip.Name
+				} else {
+					name = filepath.Base(path)
+				}
+			}
+			if name != "_" && name != "." && !used[name] {
+				imp.Name = ast.NewIdent("_")
+			}
+		}
+		var buf bytes.Buffer
+		if err := format.Node(&buf, p.Fset, file); err != nil {
+			return nil, err
+		}
+		out[fname] = buf.Bytes()
+	}
+	return out, nil
+}
